@@ -40,7 +40,7 @@ def check_floors(mod, ctx):
     return errs
 
 
-def run_variant(mod, base_model, v, tier):
+def run_variant(mod, base_model, v, tier, base_idents=frozenset()):
     """-> dict(status=fired|silent|skipped|anchor|clean|false-alarm, ...)"""
     m, why = v.apply(base_model)
     if m is None:
@@ -48,13 +48,13 @@ def run_variant(mod, base_model, v, tier):
     try:
         ctx = run_rules(mod, m, tier)
         floors = check_floors(mod, ctx)
-        if floors and not ctx.violations():
+        if floors and not [i for i in ctx.violations() if i.ident() not in base_idents]:
             raise AnchorError('; '.join(floors))
     except AnchorError as e:
         return {'variant': v.name, 'status': 'anchor', 'why': str(e)}
     except Exception:       # a rule crashed on an unforeseen shape: no verdict for this variant
         return {'variant': v.name, 'status': 'anchor', 'why': 'checker exception: ' + traceback.format_exc()[-300:]}
-    viol = ctx.violations()
+    viol = [i for i in ctx.violations() if i.ident() not in base_idents]      # constructs already violating on the base tree do not count
     rules = sorted({i.rule for i in viol})
     if v.kind == 'M':
         want = v.rule if v.rule.startswith(mod.PROP) else '%s.%s' % (mod.PROP, v.rule)
@@ -147,7 +147,7 @@ def _main(prop, a, seed, timer):
         # a control 'fires' only through a construct that is not already violating.
         base_viol = {i.ident() for i in ctx.violations()}
         for v in variants:
-            r = run_variant(mod, model, v, a.tier)
+            r = run_variant(mod, model, v, a.tier, base_viol)
             if v.kind == 'M' and r['status'] == 'fired':
                 pass
             vres.append(r)
@@ -159,7 +159,6 @@ def _main(prop, a, seed, timer):
                 control_errs.append('benign variant raised an alarm: %s %s' % (v.name, r['rules']))
             if v.kind == 'B' and r['status'] == 'anchor' and not v.reanchor:
                 control_errs.append('benign variant lost an anchor: %s (%s)' % (v.name, r['why']))
-        del base_viol
 
     # ---- evidence -----------------------------------------------------------
     by = ctx.by_rule()
